@@ -68,7 +68,23 @@ def lazy_attrs(project, cls) -> Tuple[Set[str], Set[str]]:
     return stored, marker
 
 
-def _polarity(test, recv, marker) -> Optional[bool]:
+def marker_properties(project, cls, marker) -> Dict[str, bool]:
+    """properties of the class that only answer 'is it computed?': `return bool(self.values.size)` — name -> the truth value
+    that means computed"""
+    out = {}
+    for c in cls.mro(project):
+        for name, m in c.methods.items():
+            if m.kind != "property" or name in out or not m.node.args.args:
+                continue
+            body = [st for st in m.node.body if not (isinstance(st, ast.Expr) and isinstance(st.value, ast.Constant))]
+            if len(body) == 1 and isinstance(body[0], ast.Return) and body[0].value is not None:
+                pol = _polarity(body[0].value, m.node.args.args[0].arg, marker)
+                if pol is not None:
+                    out[name] = pol
+    return out
+
+
+def _polarity(test, recv, marker, mprops=None) -> Optional[bool]:
     """label of the edge on which the data is known to be computed, for a test that asks only about the marker; None when the
     test is not of a recognised shape"""
     flip = False
@@ -88,6 +104,8 @@ def _polarity(test, recv, marker) -> Optional[bool]:
             return True
         return False
 
+    if mprops and _self_attr(e, recv) in mprops:
+        return mprops[_self_attr(e, recv)] != flip
     if fill(e):
         return not flip
     if isinstance(e, ast.Compare) and len(e.ops) == 1 and fill(e.left) and isinstance(e.comparators[0], ast.Constant) \
@@ -119,6 +137,10 @@ def _roots(nd):
 def _state_query(x, parents) -> bool:
     """the read is `bool(<attr>)` / `not <attr>`: asks whether there is data, does not use it"""
     p = parents.get(id(x))
+    while (isinstance(p, ast.Attribute) and p.attr == "size") or (
+            isinstance(p, ast.Call) and isinstance(p.func, ast.Name) and p.func.id == "len" and p.args and p.args[0] is x):
+        x = p
+        p = parents.get(id(x))
     if isinstance(p, ast.UnaryOp) and isinstance(p.op, ast.Not):
         return True
     if isinstance(p, ast.Call) and isinstance(p.func, ast.Name) and p.func.id == "bool" and p.args and p.args[0] is x:
@@ -126,38 +148,103 @@ def _state_query(x, parents) -> bool:
     return False
 
 
+def _marker_tests(cfg, recv, stored, marker, mprops):
+    """{test node id: label of its computed edge} and the tests on the marker that could not be classified"""
+    computed_edge, unclear = {}, []
+    for nd in cfg.nodes:
+        if nd.kind != "test" or not hasattr(nd.ast, "test"):
+            continue
+        t = nd.ast.test
+        got = {_self_attr(x, recv) for x in ast.walk(t)} - {None}
+        if not ((got & stored) or (got & set(mprops or ()))):
+            continue
+        if (got & stored) - marker:
+            continue
+        other_names = {x.id for x in ast.walk(t) if isinstance(x, ast.Name)} - {recv, "len", "bool"}
+        pol = None if other_names else _polarity(t, recv, marker, mprops)
+        if pol is None:
+            unclear.append(nd)
+        else:
+            computed_edge[nd.id] = pol
+    return computed_edge, unclear
+
+
+def ensures(project, cls, m, stored, marker, memo) -> bool:
+    """every normal path through the method leaves with the landscape computed: it runs compute_landscape() (directly, or
+    through a method of self / super() that ensures it) or takes the computed edge of a test on the marker"""
+    key = ("ensures", m.qualname)
+    if key in memo:
+        return memo[key]
+    memo[key] = False
+    cfg = CFG(m.node)
+    me = m.node.args.args[0].arg if m.node.args.args else "self"
+    g = self_gates(project, cls, m, cfg, stored, marker, memo)
+    ce, _ = _marker_tests(cfg, me, stored, marker, marker_properties(project, cls, marker))
+    if cfg.entry.id in g:
+        memo[key] = True
+        return True
+
+    def filt(x, t, lab):
+        return not (x in ce and lab == ce[x])
+    reach = cfg.reachable_from(cfg.entry.id, avoid=set(g), edge_filter=filt)
+    memo[key] = cfg.exit.id not in reach or cfg.exit.id in g
+    return memo[key]
+
+
+def self_gates(project, cls, m, cfg, stored, marker, memo) -> Set[int]:
+    """statements of `m` after which the landscape of self is computed"""
+    from .c10 import _decorator_computes_first
+    gates = set()
+    if _decorator_computes_first(project, m):
+        gates.add(cfg.entry.id)
+    me = m.node.args.args[0].arg if m.node.args.args else "self"
+    for nd in cfg.nodes:
+        for r in _roots(nd):
+            for c in ast.walk(r):
+                if not (isinstance(c, ast.Call) and isinstance(c.func, ast.Attribute)):
+                    continue
+                recv, name = c.func.value, c.func.attr
+                is_self = isinstance(recv, ast.Name) and recv.id == me
+                is_super = isinstance(recv, ast.Call) and isinstance(recv.func, ast.Name) and recv.func.id == "super"
+                if not (is_self or is_super):
+                    continue
+                if name == "compute_landscape":
+                    gates.add(nd.id)
+                    continue
+                owner = getattr(m, "cls", None) or cls
+                h = owner.lookup_super(name, project) if is_super else cls.lookup(name, project)
+                if h is not None and h.qualname != m.qualname and isinstance(h.node, ast.FunctionDef) \
+                        and ensures(project, cls, h, stored, marker, memo):
+                    gates.add(nd.id)
+    return gates
+
+
 def analyse_method(project, cls, m, stored, marker, memo, others=(), with_self=True):
     """-> dict(reads=int, bad=[(node, ast, text)], leaks=[(node, text)], undecided=[(node, text)])
 
     `others`: parameter names that hold another landscape of the same class (the operators)"""
-    from .c10 import _compute_gates
     cfg = CFG(m.node)
     me = (m.node.args.args[0].arg if m.node.args.args else "self") if with_self else None
     out = {"reads": 0, "bad": [], "leaks": [], "undecided": []}
-    gates: Dict[str, Set[int]] = {me: set(_compute_gates(project, m, cls, cfg, memo))} if with_self else {}
+    gates: Dict[str, Set[int]] = {me: self_gates(project, cls, m, cfg, stored, marker, memo)} if with_self else {}
+    mprops = marker_properties(project, cls, marker) if cls is not None else {}
+    def _computes(name):
+        if name == "compute_landscape":
+            return True
+        h = cls.lookup(name, project) if cls is not None else None
+        return h is not None and isinstance(h.node, ast.FunctionDef) and ensures(project, cls, h, stored, marker, memo)
     for o in others:
         gates[o] = {nd.id for nd in cfg.nodes if any(
-            isinstance(c, ast.Call) and isinstance(c.func, ast.Attribute) and c.func.attr == "compute_landscape"
-            and isinstance(c.func.value, ast.Name) and c.func.value.id == o for r in _roots(nd) for c in ast.walk(r))}
+            isinstance(c, ast.Call) and isinstance(c.func, ast.Attribute) and isinstance(c.func.value, ast.Name)
+            and c.func.value.id == o and _computes(c.func.attr) for r in _roots(nd) for c in ast.walk(r))}
     for recv in ([me] if with_self else []) + list(others):
         g = gates[recv]
-        computed_edge: Dict[int, bool] = {}
-        tests = []
-        for nd in cfg.nodes:
-            if nd.kind != "test" or not hasattr(nd.ast, "test"):
-                continue
-            got = {_self_attr(x, recv) for x in ast.walk(nd.ast.test)} & stored
-            if not got or not (got <= marker):
-                continue
-            other_names = {x.id for x in ast.walk(nd.ast.test) if isinstance(x, ast.Name)} - {recv, "len", "bool"}
-            pol = None if other_names else _polarity(nd.ast.test, recv, marker)
-            if pol is None:
-                if nd.id not in g and not cfg.must_pass_through(cfg.entry.id, nd.id, g):
-                    out["undecided"].append((nd, f"test `{ast.unparse(nd.ast.test)}` on the lazily computed data is of a shape "
-                                                 f"this rule does not classify"))
-                continue
-            computed_edge[nd.id] = pol
-            tests.append(nd)
+        computed_edge, unclear = _marker_tests(cfg, recv, stored, marker, mprops)
+        tests = [cfg.nodes[k] for k in computed_edge]
+        for nd in unclear:
+            if nd.id not in g and not cfg.must_pass_through(cfg.entry.id, nd.id, g):
+                out["undecided"].append((nd, f"test `{ast.unparse(nd.ast.test)}` on the lazily computed data is of a shape "
+                                             f"this rule does not classify"))
 
         def filt(x, t, lab):
             return not (x in computed_edge and lab == computed_edge[x])
